@@ -39,6 +39,25 @@ def make_cases(rng, tier, n):
                         c["init"].append(("dir", p0 + b"/" + nm))
                         c["init"].append(("file", p0 + b"/" + nm + b"/inner.txt", "g:%d:%d" % (rng.randrange(1000), rng.choice([0, 7, 300]))))
                 stats["schema_field_dirs"] = stats.get("schema_field_dirs", 0) + 1
+        dart2 = [a for a in s1eval.artifacts(c) if a[1] == "d"]
+        if i % 20 == 3 and dart2:
+            # entry names at the limit of what a directory can hold (NAME_MAX = 255 bytes) and just below it: there is no room
+            # for a suffix next to them
+            p0 = dart2[0][0]
+            for ln in (251, 252, 254, 255):
+                c["init"].append(("file", p0 + b"/" + b"N" * (ln - 4) + b"%04d" % ln, "g:%d:%d" % (rng.randrange(1000), rng.choice([0, 7, 300]))))
+            c["init"].append(("dir", p0 + b"/" + b"D" * 255))
+            c["init"].append(("file", p0 + b"/" + b"D" * 255 + b"/" + b"n" * 255, "g:%d:5" % rng.randrange(1000)))
+            stats["name_max"] = stats.get("name_max", 0) + 1
+        if i % 20 == 13 and dart2:
+            # a tracked file next to tracked files whose names are that name plus the suffix a temp-file scheme would pick
+            p0 = dart2[0][0]
+            for base in (b"model.bin", b"t"):
+                c["init"].append(("file", p0 + b"/" + base, "g:%d:%d" % (rng.randrange(1000), rng.choice([7, 300, 65537]))))
+                for sfx in (b".tmp", b".part", b"~", b".new", b".lock", b".bak"):
+                    c["init"].append(("file", p0 + b"/" + base + sfx, "g:%d:%d" % (rng.randrange(1000), rng.choice([0, 9, 400]))))
+                c["init"].append(("file", p0 + b"/." + base + b".tmp", "g:%d:3" % rng.randrange(1000)))
+            stats["tmp_siblings"] = stats.get("tmp_siblings", 0) + 1
         if fam == "pipeline" and len(c["stages"]) >= 2:
             # later stages take an earlier stage's outputs (and a path inside a directory output) as inputs
             for k in range(1, len(c["stages"])):
@@ -76,6 +95,11 @@ def make_cases(rng, tier, n):
                     ops.append(("write", d_ + b"/second-gen.bin", "g:%d:%d" % (rng.randrange(1000), rng.choice([0, 7, 65537]))))
                 ops.append(("commit", rng.choice("lc"), commit_targets))
                 stats["second_generation"] = stats.get("second_generation", 0) + 1
+        if i % 20 == 9:
+            # the cache is lost (a new, empty cache) while the workspace holds regular files and the stage files their checksums: the
+            # tree is committed again and must come back from the new cache
+            ops = [("commit", "c", commit_targets), ("wipecache",), ("commit", rng.choice("ll" "c"), commit_targets)]
+            stats["recommit_after_cache_loss"] = stats.get("recommit_after_cache_loss", 0) + 1
         if rng.random() < 0.5:
             ops.append(("status", []))
         if variant == "clone":
